@@ -1,9 +1,9 @@
 # C37: stored query templates (Ledger/Template.v) — pure substitution/params tie + metamorphic run on the real stack
 PROPS['C37'] = dict(
     target='Props/C37',
-    theorems=['C37_subst_and', 'C37_subst_or', 'C37_subst_not', 'C37_subst_identity', 'C37_subst_identity_refuted',
-              'C37_overwrite_right_biased', 'C37_overwrite_idempotent', 'C37_overwrite_fieldwise_refuted',
-              'C37_default_pagesize_refuted', 'C37_overwrite_fieldwise_partial', 'C37_equiv'],
+    theorems=['C37_subst_and', 'C37_subst_or', 'C37_subst_not', 'C37_subst_identity',
+              'C37_overwrite_right_biased', 'C37_overwrite_idempotent', 'C37_overwrite_fieldwise',
+              'C37_default_pagesize', 'C37_equiv'],
     ties=[dict(name='TIE-C templates', vh='templates', model='templates', n=dict(quick=20000, thorough=400000),
                args=dict(all=['-mode', 'resolve']), kinds=['C37']),
           dict(name='TIE-D template runs', vh='templates', model='templates', n=dict(quick=450, thorough=8000),
@@ -26,11 +26,11 @@ PROPS['C37'] = dict(
                 'ListAccounts/ListLogs/GetVolumesWithBalances on the query a user would write by hand (the harness substitutes the variables itself and overrides '
                 'template params by request params FIELD BY FIELD): same items (canonical JSON), order, page size, hasMore, and the same concatenation when the cursors '
                 'are followed through RunQuery{Cursor}; invalid bindings must be rejected as validation errors. Its model line compares the resolve/overwrite answers '
-                'and the page size RunQuery answered with against tpl_run_plan+tpl_normalize. The field-wise reading of "template parameters overridden by the request '
-                'parameters" is REFUTED for endTime/startTime/expand/pageSize (C37_overwrite_fieldwise_refuted, C37_default_pagesize_refuted; known findings '
-                'KF-C37-overwrite-recordwise, KF-C37-default-pagesize-reset) and the identity on variable-free bodies is refuted for non-ASCII literals '
-                '(C37_subst_identity_refuted; KF-C37-interpolate-non-ascii); a float64 variable beyond int64 interpolated into a string is KF-C37-interpolate-int-overflow. '
-                'The monitor tags a mismatch with these only when the answer equals the direct query under exactly those deviations; anything else is a new violation.',
+                'and the page size RunQuery answered with against tpl_run_plan+tpl_normalize. Since the repairs 05-template-params-fieldwise and 06-template-non-ascii the model follows the repaired code: params objects override exactly the '
+                'fields they carry (C37_overwrite_fieldwise, C37_default_pagesize are theorems now; their former refutation witnesses are the first regression cases '
+                'of TIE-D) and literal bytes are copied unchanged (C37_subst_identity without an ASCII hypothesis). On a tree without those repairs the monitor '
+                'reports the old behaviours as untagged violations. Still open: a float64 variable beyond int64 interpolated into a string (KF-C37-interpolate-int-overflow). '
+                'The monitor tags a mismatch with that finding only when the answer equals the direct query under exactly that deviation; anything else is a new violation.',
     trusted=['pgsem (harness/go/pgsem) executes the SQL of both the template run and the direct query (TIE-D verdicts are relative to it; both sides go through the same store code)',
              'modelled not verified: encoding/json decoding of params (times are handed to the model as parsed instants), time.Parse(RFC3339Nano) (tpl_date_ok is a '
              'hand-written acceptor compared on a lattice of date strings), regexp, query.ParseJSON/Builder JSON round trip, int64(float64) out of range taken as amd64 does (-2^63)',
@@ -38,10 +38,9 @@ PROPS['C37'] = dict(
     technique='Coq proof (structural induction over the filter tree with a nested-list induction principle; case analysis of UnmarshalJSON; list induction for the cursor chain) '
               '+ differential run of the extracted model against queries.ResolveFilterTemplate / QueryTemplateParams.Overwrite + metamorphic run RunQuery vs List* on the real stack',
     level_text='Unbounded theorems about the Gallina model (any tree depth, any variables): substitution is a homomorphism over $and/$or/$not with first-error-wins; '
-               'variable-free ASCII bodies are returned unchanged; Overwrite is right-biased record-wise and idempotent; a template run is the direct list query with the '
+               'variable-free bodies are returned unchanged byte for byte; Overwrite is right-biased field by field and idempotent, request params override exactly the fields they carry, objects without pageSize keep the configured default; a template run is the direct list query with the '
                'resolved filter and the overwritten params (filter, PIT, OOT, expand, options, column, order, page size clamped to the maximum, 0 -> 15) and following its '
-               'cursors enumerates exactly that query. Refuted and recorded as findings: field-wise override of endTime/startTime/expand/pageSize, preservation of the '
-               'configured default page size, identity on non-ASCII literals. Tied to the code by TIE-C (model = real functions) and TIE-D (real RunQuery = real List*).',
+               'cursors enumerates exactly that query. The three formerly refuted readings (field-wise override, default page size, non-ASCII identity) hold of the repaired code and are theorems. Tied to the code by TIE-C (model = real functions) and TIE-D (real RunQuery = real List*).',
     level_note='Trusted: Coq kernel, extraction, OCaml glue, Go harness, pgsem. The cursor part of C37_equiv is stated over an abstract store with offset cursors (a cursor '
                'carries the normalised query); the real column cursors are C21\'s subject and are exercised here by following them on both sides (chains cut at 40 pages).',
 )
